@@ -100,6 +100,9 @@ func c15map(hasType bool, ty string, mask int, extras map[string]any, form strin
 	for i, k := range c15keys {
 		if mask&(1<<i) != 0 {
 			m[k] = c15vals[k]
+			if form == "nulls" {
+				m[k] = nil // the kind depends on which keys are present, not on their values
+			}
 			keys[k] = true
 			kl = append(kl, sx.A(k))
 		}
@@ -175,6 +178,9 @@ func init() {
 				}
 				c15map(hasType, ty, mask, nil, "plain")
 				c15map(hasType, ty, mask, extraPool[rng.Intn(len(extraPool))], "extras")
+				if mask%3 == ti%3 || thorough {
+					c15map(hasType, ty, mask, nil, "nulls")
+				}
 				if thorough {
 					for _, e := range extraPool {
 						c15map(hasType, ty, mask, e, "extras")
